@@ -13,3 +13,7 @@ func TestC09K(t *testing.T) { RunK(t, CfgC09()) }
 func TestC11(t *testing.T) { RunK(t, CfgC11()) }
 func TestC12(t *testing.T) { RunK(t, CfgC12()) }
 func TestC13(t *testing.T) { RunK(t, CfgC13()) }
+func TestC16(t *testing.T) { RunK(t, CfgC16()) }
+func TestC18K(t *testing.T) { RunK(t, CfgC18()) }
+func TestC19(t *testing.T) { RunK(t, CfgC19()) }
+func TestC10K(t *testing.T) { RunK(t, CfgC10()) }
